@@ -54,8 +54,10 @@ impl C11 {
             ctx.skip("statement_node_correspondence_incomplete");
             return out;
         }
-        // call targets according to the text
-        let called: BTreeSet<String> = case
+        // call targets according to the text, and the labels installed as interrupt handlers
+        // (`la r, L` directly followed by a write of r to utvec): the documented way a label
+        // becomes a function without being called
+        let mut called: BTreeSet<String> = case
             .lines
             .iter()
             .filter_map(|l| match l {
@@ -63,6 +65,16 @@ impl C11 {
                 _ => None,
             })
             .collect();
+        for w in case.lines.windows(2) {
+            if let (Line::Ins(a), Line::Ins(b)) = (&w[0], &w[1]) {
+                if a.mn == "la" && b.mn == "csrrw" && b.ops.get(1) == Some(&Opd::C("utvec".into())) && b.ops.get(2) == a.ops.first() {
+                    if let Some(Opd::L(l)) = a.ops.get(1) {
+                        called.insert(l.clone());
+                        ctx.label("interrupt-handler");
+                    }
+                }
+            }
+        }
         // label -> node carrying it
         let mut label_node: BTreeMap<String, usize> = BTreeMap::new();
         for n in &cfg.nodes {
@@ -202,7 +214,11 @@ impl Prop for C11 {
             faults: false,
             data: false,
         };
-        let (lines, info) = wild::program(ch, &o);
+        let (mut lines, info) = wild::program(ch, &o);
+        if ch.chance(1, 8) {
+            let mixed = ch.chance(2, 3);
+            wild::add_handler(&mut lines, ch, "on_interrupt", mixed);
+        }
         Some(Case {
             lines,
             info,
